@@ -799,6 +799,11 @@ class CallsMixin:
             return int(v)
         if isinstance(v, (int, SymInt, bool, SymBool)):
             return mk_int(z3_of_int(v)) if is_sym(v) else int(v)
+        if isinstance(v, float):
+            return int(v)
+        if type(v).__name__ == "SymReal":
+            # int(x) truncates towards zero; z3's ToInt is the floor
+            return mk_int(z3.If(v.e >= 0, z3.ToInt(v.e), -z3.ToInt(-v.e)))
         if isinstance(v, (str, bytes)) and not is_sym(v):
             try:
                 return int(v)
@@ -1141,6 +1146,16 @@ class CallsMixin:
             return mk_str(z3.If(z3.SuffixOf(sfx, e), z3.SubString(e, 0, z3.Length(e) - z3.Length(sfx)), e), kind)
         if name == "endswith":
             return mk_bool(z3.SuffixOf(str_to_z3(args[0]), e))
+        if name == "rpartition":
+            sep = str_to_z3(args[0])
+            idx = z3.LastIndexOf(e, sep)
+            n = z3.Length(e)
+            found = idx >= 0
+            emp = z3.StringVal("")
+            head = mk_str(z3.If(found, z3.SubString(e, 0, idx), emp), kind)
+            mid = mk_str(z3.If(found, sep, emp), kind)
+            tail = mk_str(z3.If(found, z3.SubString(e, idx + z3.Length(sep), n), e), kind)
+            return (head, mid, tail)
         if name == "partition":
             sep = str_to_z3(args[0])
             idx = z3.IndexOf(e, sep, 0)
